@@ -7,8 +7,9 @@ TEXTS = {
         'level': "Static who-may-call and provenance analysis over every function and call site of both library units: the C "
                  "allocator is only stored into / compared with the one hooks table, every allocation/release call is an "
                  "indirect call through a value proven to be a copy of that table, realloc is used only under a non-NULL test "
-                 "and installed only when both defaults are in place (all paths of the installer enumerated). Decides the "
-                 "whole statement except 'exactly once'. A census over every call site rather than over the call sites a "
+                 "and installed only when both defaults are in place (all paths of the installer enumerated); no access path is released "
+                 "twice on a feasible path (DBL1, the 'at most once' half of exactly-once). Decides the "
+                 "whole statement except 'no block is lost' (C07/C08). A census over every call site rather than over the call sites a "
                  "history happens to execute.",
         'note': COMMON_NOTE + " Not decided: 'exactly once' (C07), behaviour of user hooks.",
         'technique': 'static analysis: call-site census + hooks-value provenance + path enumeration of the installer (clang AST, own CFG), LLVM-IR cross-check',
@@ -29,7 +30,8 @@ TEXTS = {
                  "the pointer entry points: range tests bound one element (TAB8), the four ~0/~1 routines agree with each "
                  "other and the RFC for every byte value (TAB9: byte-set path exploration of each loop), member names reach pointer "
                  "text only through the encoder (ESC1), case flag propagation (TAB11), pointer buffers sized term-by-term for what is "
-                 "written (OUT7), gap-free encoding (OUT5). Does not decide which node a pointer resolves to.",
+                 "written, helpers with counting loops included (OUT7), digit-counting loops agree with their radix (DIG1), gap-free "
+                 "encoding (OUT5). Does not decide which node a pointer resolves to.",
         'note': COMMON_NOTE + " Not decided: resolution semantics, the 'abc resolves to root' defect named in the property, index overflow.",
         'technique': 'static analysis: abstract interpretation of the character loops over byte-value sets (per-byte tables of what is written/consumed), taint-style flow of member names into text sinks, range-test consistency, flag propagation over the call graph, linear size accounting',
         'ref': 'DESIGN.md 4 C15; 3 TAB8 TAB9 TAB11 OUT5 OUT7',
@@ -49,7 +51,9 @@ TEXTS = {
         'level': "Decides path-construction and input-preservation clauses of patch generation: every path buffer sized for what "
                  "is written with the encoded length of the same key (OUT7), member names reach pointer text only through the encoder "
                  "(ESC1), escape routines agree per byte value (TAB9), gap-free encoding (OUT5), "
-                 "inputs only re-linked by sorting with the tail link restored (LST1, LST5), flag propagation (TAB11). Does "
+                 "inputs only re-linked by sorting with the tail link restored (LST1, LST5), flag propagation (TAB11), the member comparator "
+                 "decided over all byte pairs including its sign (CMP1), and no branch outside the two documents may silence the "
+                 "generator (GEN1: a depth budget, flag or counter must not guard an exit that emits nothing). Does "
                  "not decide that the patch transforms source into target.",
         'note': COMMON_NOTE + " Not decided: patch correctness as a value, emptiness iff equal.",
         'technique': 'static analysis: linear size accounting, flow of member names into text sinks, byte-set path exploration of the escape routines, field-store census of the sorter, flag propagation',
@@ -69,7 +73,9 @@ TEXTS = {
     'C19': {
         'level': "Decides the 'healthy container afterwards' and 'same member nodes' sentences: every child store in both units "
                  "restores the first child's back link, every internal sorter goes through sort_object (LST1, LST5), sort_list "
-                 "assigns only next/prev and calls only itself and the comparator, comparator gets the caller's flag (TAB11). "
+                 "assigns only next/prev and calls only itself and the comparator, comparator gets the caller's flag (TAB11); the comparator "
+                 "itself is decided over all 65536 byte pairs for both flag values: byte order (strcmp) or ASCII-folded order with the sign "
+                 "the sorter relies on (CMP1). "
                  "Sortedness, permutation and link consistency are decided for objects of up to five members only (SHP2: sort_object "
                  "evaluated from its AST over abstract heaps for every arrangement of keys); for longer objects they are not decided.",
         'note': COMMON_NOTE + " SHP2 is a bounded statement (sorting re-links inside loops and recursion, so there is no small-model argument); not decided: longer objects, idempotence as such.",
@@ -79,8 +85,8 @@ TEXTS = {
 }
 TEXTS.update({
     'C01': {
-        'level': "Forward dataflow (abstract interpretation with intervals on length-offset, raw-cursor distances, integer locals and symbolic-index facts) over every function of the parse family: every read of the input is shown to be covered by a guard on every path, callee entry requirements are inferred by a call-graph fixpoint and checked at every call site, local arrays and sprintf targets stay in bounds, nothing is stored through the input, every recursion cycle is depth-gated and every loop steps forward. This is exhaustive over paths of the current source, where tests with zero-terminated literals cannot see an over-read of one byte.",
-        'note': COMMON_NOTE + " Entry assumption = API contract (value[0..buffer_length) readable). Not decided: write bound of parse_string's output block, leak freedom (C03/C08 rules), walkability of the result, arithmetic UB beyond TAB7.",
+        'level': "Forward dataflow (abstract interpretation with intervals on length-offset, raw-cursor distances, integer locals and symbolic-index facts) over every function of the parse family: every read of the input is shown to be covered by a guard on every path, callee entry requirements are inferred by a call-graph fixpoint and checked at every call site, local arrays and sprintf targets stay in bounds, nothing is stored through the input, every recursion cycle is depth-gated, every loop steps forward, and whatever a parsing function allocates is linked, released or handed on on every path (OWN2 over the parse family: the 'or a leak' clause). This is exhaustive over paths of the current source, where tests with zero-terminated literals cannot see an over-read of one byte.",
+        'note': COMMON_NOTE + " Entry assumption = API contract (value[0..buffer_length) readable). Not decided: write bound of parse_string's output block, walkability of the result, arithmetic UB beyond TAB7.",
         'technique': 'static analysis: forward dataflow / interval abstract interpretation on an own CFG with lowered conditions; call-graph fixpoint for callee requirements; SCC-based recursion-gate check',
         'ref': 'DESIGN.md 4 C01; 3 BND1 BND2 BND4 BND6 EFF7 TAB1 TAB2',
     },
@@ -100,9 +106,9 @@ TEXTS.update({
 TEXTS.update({
     'C06': {
         'level': "Decides the 'sibling chain stays consistent', 'refused call leaves containers unchanged' and 'NULL argument refused' clauses as structural obligations on every mutator: tail link restored on every path through a child store (CFG must-pass with null/release exemptions), completeness of each list-edit idiom, no refusal reachable after a link store, NULL tests dominating parameter dereferences. SHP1 decides the list-model clause for the array editors themselves: each editor (append, insert, detach/delete by pointer and index, replace by pointer and index) is evaluated from its AST over abstract heaps for every list of 0..5 elements and every position, and the resulting heap must be the one the ordered-list model gives with all link invariants; five elements realise every aliasing pattern among head/predecessor/item/successor/tail and the premise that the editors store links at most one link away from a named node (and not in loops) is checked, so longer lists add no case. Because every edit re-establishes the invariant it assumes, sequences of edits follow.",
-        'note': COMMON_NOTE + " Not decided: lookup by key (first match, case folding) on which the object-keyed editors rest before they call the pointer-based ones; success flags as values beyond the cases evaluated.",
+        'note': COMMON_NOTE + " CMP1 decides the case-folding comparator itself over all byte pairs. Not decided: that lookup returns the *first* match as a history property; success flags as values beyond the cases evaluated.",
         'technique': 'static analysis: shape analysis of the list editors by finite instantiation over abstract heaps (small-model argument with a checked premise); path-sensitive store pairing on the CFG, idiom completeness matching, dominance of NULL tests, reachability of refusals after stores',
-        'ref': 'DESIGN.md 4 C06; 3 LST1-LST4 TAB7; 15 SHP1',
+        'ref': 'DESIGN.md 4 C06; 3 LST1-LST4 TAB7; 15 SHP1; 17 CMP1',
     },
     'C11': {
         'level': "Decides the no-sharing / reference-cleared / bounded-recursion clauses: field-by-field census of the duplicator against the struct definition, provenance of every pointer stored into the copy (fresh-allocation closure), mask shape of the type copy, depth gate with depth+1 handed down, tail link of the copied chain.",
@@ -111,10 +117,10 @@ TEXTS.update({
         'ref': 'DESIGN.md 4 C11; 3 TAB14 TAB1 LST1',
     },
     'C12': {
-        'level': "Decides purity (arguments never modified: transitive store census), the structural parts of the comparison (array length agreement by nullness dataflow, bidirectional member lookup, lookup and recursion results honoured, NULL payloads refused before strcmp), masked kind comparison and flag propagation. Numeric tolerance is not decided.",
+        'level': "Decides purity (arguments never modified: transitive store census), the structural parts of the comparison (array length agreement by nullness dataflow, bidirectional member lookup, lookup and recursion results honoured, NULL payloads refused before strcmp), masked kind comparison and flag propagation; C12N: the Number arm, as a boolean function of the conditions it evaluates (helpers inlined), is exactly compare_double of the two valuedouble fields; CMP1: the case-insensitive key comparator used by the lookups is decided over all 65536 byte pairs. The tolerance formula inside compare_double is not decided.",
         'note': COMMON_NOTE + " Not decided: compare_double semantics (incl. the infinity case named in the property), reflexivity/symmetry.",
-        'technique': 'static analysis: transitive purity census, nullness dataflow on the array arm, dominance/reachability checks on the object arm, mask-shape checks',
-        'ref': 'DESIGN.md 4 C12; 3 EFF6 TAB3 TAB11',
+        'technique': 'static analysis: transitive purity census, nullness dataflow on the array arm, dominance/reachability checks on the object arm, mask-shape checks, truth-table reduction of the number arm, byte-set path exploration of the key comparator',
+        'ref': 'DESIGN.md 4 C12; 3 EFF6 TAB3 TAB11; 17 C12N CMP1',
     },
 })
 TEXTS.update({
@@ -125,10 +131,10 @@ TEXTS.update({
         'ref': 'DESIGN.md 4 C03; 3 TAB1 OWN2 TAB5a TAB8 TAB17',
     },
     'C07': {
-        'level': "Decides the ownership discipline per function and per path: payload releases guarded by the ownership bit that describes the memory (with no type store before the test), key-alias ordering, no double release / use after release / dangling released field, every block released-linked-or-returned on every path including failing consumers, duplicate/reference constructors set and clear the bits, and cJSON_Delete releases exactly what each of the 32 kinds of node (two ownership bits x three payload pointers) owns, the node itself last (DEL1). The allocator balance over arbitrary histories is not decided.",
+        'level': "Decides the ownership discipline per function and per path: payload releases guarded by the ownership bit that describes the memory (with no type store before the test), key-alias ordering, no double release / use after release / dangling released field, every block released-linked-or-returned on every path including failing consumers, duplicate/reference constructors set and clear the bits, and cJSON_Delete releases exactly what each of the 32 kinds of node (two ownership bits x three payload pointers) owns, the node itself last (DEL1); no access path is handed to a release function twice on a feasible path without a store in between, helpers counted for what they dispose of on every path (DBL1). The allocator balance over arbitrary histories is not decided.",
         'note': COMMON_NOTE + " Summaries of consume-on-success callees are a frozen table re-checked against the callee bodies on every run.",
         'technique': 'static analysis: disjunctive typestate dataflow (allocation tokens, parent links, NULL correlation) + CFG path rules for flag-guarded releases and key aliasing',
-        'ref': 'DESIGN.md 4 C07; 3 OWN2 OWN4 OWN5 OWN6 TAB14',
+        'ref': 'DESIGN.md 4 C07; 3 OWN2 OWN4 OWN5 OWN6 TAB14; 17 DBL1',
     },
     'C08': {
         'level': "The failing-allocation index is replaced by 'every allocator call site x its NULL outcome', which the typestate engine enumerates exhaustively for every function of cJSON.c: the NULL outcome is never dereferenced, nothing allocated earlier in the call is left behind, blocks handed to consume-on-success callees are released when that call can fail at the site, and pre-existing trees are untouched before an allocation that can still fail.",
@@ -139,7 +145,7 @@ TEXTS.update({
 })
 TEXTS.update({
     'C02': {
-        'level': "Decides necessary structural conditions of exact decoding: entry-point funnel, literal length/advance/type triples, the escape table against RFC 8259, the UTF-16 escape decoder over all code values (TAB6: which codes stand alone / need a partner / are refused, the code point of all 1024 x 1024 surrogate pairs, the UTF-8 bytes of every code), first-byte sets of the dispatch computed by dataflow over the guards, tail-append order of container members, key taken from the parsed string, int-view saturation. Exact decoding as a value (rounding, UTF-8 arithmetic) is not decided.",
+        'level': "Decides necessary structural conditions of exact decoding: entry-point funnel, literal length/advance/type triples, the escape table against RFC 8259 read off the paths of the decoding loop for all 256 values of the byte after a backslash (switch, if-chain or constant-table search alike), the UTF-16 escape decoder over all code values (TAB6: which codes stand alone / need a partner / are refused, the code point of all 1024 x 1024 surrogate pairs, the UTF-8 bytes of every code), first-byte sets of the dispatch computed by dataflow over the guards, tail-append order of container members, key taken from the parsed string, int-view saturation. Exact decoding as a value (rounding, UTF-8 arithmetic) is not decided.",
         'note': COMMON_NOTE + " RFC tables (RFC 8259 escapes, RFC 2781/3629 constants) are the oracle for the extracted tables.",
         'technique': 'static analysis: table extraction from the AST, abstract interpretation of the UTF-16 decoder over value sets of its two codes, byte-set dataflow over guard conditions, idiom matching for list construction',
         'ref': 'DESIGN.md 4 C02; 3 TAB2 TAB4 TAB5a TAB6 TAB7 LST1',
@@ -153,10 +159,10 @@ TEXTS.update({
         'ref': 'DESIGN.md 4 C04; 3 TAB5b TAB5c OUT1 OUT3',
     },
     'C05': {
-        'level': "Decides that all print variants funnel into one printer and differ only in buffer set-up, that format influences whitespace stores and lengths only, that the kind switch is exhaustive and masked, that control bytes/quote/backslash are escaped, that the locale decimal point is normalised and that the literals are the JSON ones. Acceptance by an independent strict parser is not decided.",
-        'note': COMMON_NOTE + " Not decided: non-finite -> null, integer formatting, strictness as a language property.",
-        'technique': 'static analysis: call-graph funnel check, control-dependence census on the format flag, table extraction',
-        'ref': 'DESIGN.md 4 C05; 3 TAB2 TAB15 TAB3 TAB5b TAB16',
+        'level': "Decides that all print variants funnel into one printer and differ only in buffer set-up, that format influences whitespace stores and lengths only, that the kind switch is exhaustive and masked, that control bytes/quote/backslash are escaped, that the locale decimal point is normalised, that the literals are the JSON ones, and (NUM1) that exactly the non-finite doubles are printed as null: print_number is followed once per class of IEEE doubles (NaN, +Inf, -Inf, finite positive, finite negative, zero) in a class/interval domain. Acceptance by an independent strict parser is not decided.",
+        'note': COMMON_NOTE + " Not decided: integer formatting, strictness as a language property.",
+        'technique': 'static analysis: call-graph funnel check, control-dependence census on the format flag, table extraction, abstract interpretation of print_number over classes of doubles',
+        'ref': 'DESIGN.md 4 C05; 3 TAB2 TAB15 TAB3 TAB5b TAB16; 17 NUM1',
     },
     'C09': {
         'level': "For every ensure(p, N) site and every assignment of the boolean atoms, the bytes stored through the granted pointer are at most N (path enumeration with linear symbolic state), every output store goes through such a grant, and ensure grants N+1 bytes inside [0, length) or refuses, with the noalloc gate dominating growth. Exhaustive over sites and paths of the printing functions, where tests sample a few trees and sizes.",
